@@ -269,6 +269,11 @@ type matchedEntry struct {
 }
 
 func matchEntries(before, after []Entry) (ml []matchedEntry) {
+	before = slices.Clone(before)
+	ml = make([]matchedEntry, 0, len(after)+len(before))
+
+	// First pair every HEAD rule with an identical rule from the base version, so that a rule
+	// which wasn't touched is never matched by name with some other (new or modified) rule.
 	for _, a := range after {
 		slog.Debug(
 			"Matching HEAD rule",
@@ -278,47 +283,47 @@ func matchEntries(before, after []Entry) (ml []matchedEntry) {
 		)
 
 		m := matchedEntry{after: a, hasAfter: true} // nolint: exhaustruct
-		beforeSwap := make([]Entry, 0, len(before))
-		var matches []Entry
-		var matched bool
-
-		for _, b := range before {
-			if !matched && a.Rule.Name() != "" && a.Rule.IsIdentical(b.Rule) {
-				m.before = b
-				m.hasBefore = true
-				m.isIdentical = isEntryIdentical(b, a)
-				m.wasMoved = a.Path.Name != b.Path.Name
-				matched = true
-				slog.Debug(
-					"Found identical rule on before & after",
-					slog.Bool("identical", m.isIdentical),
-					slog.Bool("moved", m.wasMoved),
-				)
-			} else {
-				beforeSwap = append(beforeSwap, b)
+		if a.Rule.Name() != "" {
+			for i, b := range before {
+				if a.Rule.IsIdentical(b.Rule) {
+					m.before = b
+					m.hasBefore = true
+					m.isIdentical = isEntryIdentical(b, a)
+					m.wasMoved = a.Path.Name != b.Path.Name
+					before = slices.Delete(before, i, i+1)
+					slog.Debug(
+						"Found identical rule on before & after",
+						slog.Bool("identical", m.isIdentical),
+						slog.Bool("moved", m.wasMoved),
+					)
+					break
+				}
 			}
 		}
-		before = beforeSwap
-
-		if !matched {
-			before, matches = findRulesByName(before, a.Rule.Name(), a.Rule.Type())
-			switch len(matches) {
-			case 0:
-			case 1:
-				m.before = matches[0]
-				m.hasBefore = true
-				m.wasMoved = a.Path.Name != matches[0].Path.Name
-				slog.Debug("Found rule with same name on before & after")
-			default:
-				slog.Debug(
-					"Found multiple rules with same name on before & after",
-					slog.Int("matches", len(matches)),
-				)
-				before = append(before, matches...)
-			}
-		}
-
 		ml = append(ml, m)
+	}
+
+	// Then match what is left by name & type.
+	for i := range ml {
+		if ml[i].hasBefore {
+			continue
+		}
+		var matches []Entry
+		before, matches = findRulesByName(before, ml[i].after.Rule.Name(), ml[i].after.Rule.Type())
+		switch len(matches) {
+		case 0:
+		case 1:
+			ml[i].before = matches[0]
+			ml[i].hasBefore = true
+			ml[i].wasMoved = ml[i].after.Path.Name != matches[0].Path.Name
+			slog.Debug("Found rule with same name on before & after")
+		default:
+			slog.Debug(
+				"Found multiple rules with same name on before & after",
+				slog.Int("matches", len(matches)),
+			)
+			before = append(before, matches...)
+		}
 	}
 
 	for _, b := range before {
